@@ -39,6 +39,9 @@ def build(c):
         args.append("--pika:ini=%s=%s" % (key, vals[c["ini"]]))
     if c["cmd"] != "-":
         args.append("%s=%s" % (opt, vals[c["cmd"]]))
+    if c.get("app", "-") != "-":
+        # a default shipped by the application in init_params::cfg
+        args.append("--probe-cfg=%s=%s" % (key, vals[c["app"]]))
     if c["setting"] == "bind":
         args.append("--pika:threads=2")
     if c["setting"] == "mask":
@@ -94,7 +97,11 @@ def run():
     if not chk.thorough():
         rng = __import__("random").Random(chk.seed)
         rng.shuffle(cases)
-        cases = cases[:900]
+        # the same number of cases per setting (settings with few sources are then covered completely)
+        per = {}
+        for c in cases:
+            per.setdefault(c["setting"], []).append(c)
+        cases = [c for s in sorted(per) for c in per[s][:260]]
 
     def one(c):
         env, args = build(c)
@@ -106,10 +113,11 @@ def run():
             raise vlib.ModelFailure("probe timed out for %s" % c)
         v = observe(c, d)
         rec = dict(c)
+        rec.setdefault("app", "-")
         rec["e"] = "case"
         rec["out"] = dict(error=v is None, value=v or "none")
         recs.append((rec, c, d))
-        chk.add_case(c, nontrivial=sum(1 for k in ("env", "pre", "pini", "ini", "cmd") if c[k] != "-") >= 2)
+        chk.add_case(c, nontrivial=sum(1 for k in ("env", "pre", "pini", "ini", "cmd", "app") if c.get(k, "-") != "-") >= 2)
     # miscellaneous: unknown options and non-pika arguments
     misc = []
     base_env = {k: v for k, v in os.environ.items() if not k.startswith("PIKA_")}
@@ -145,8 +153,9 @@ def run():
             chk.violation(what, dict(case=c, probe=d))
     chk.cov["rule"] = ("TLC enumerates, for each of 6 settings (worker count, scheduling policy, binding, small stack "
                        "size, an ini entry, process mask), every assignment of {absent, valid A, valid B, invalid} to its "
-                       "sources (environment variable, PIKA_COMMANDLINE_OPTIONS, --pika:ini, specific option): 923 cases "
-                       "(quick: 450 sampled); each is started for real under a synthetic 1x2x2 topology and the value in "
+                       "sources (environment variable, PIKA_COMMANDLINE_OPTIONS, --pika:ini inside it, --pika:ini, specific option, "
+                       "and {absent, A, B} as an application default in init_params::cfg): about 14000 cases "
+                       "(quick: up to 260 per setting); each is started for real under a synthetic 1x2x2 topology and the value in "
                        "use is read from the live runtime (worker count, scheduler, per-worker masks, stack size of a "
                        "default task, config entry); TLC validates every outcome against ConfigAbs!Accept; plus unknown "
                        "options and non-pika argument pass-through; non-trivial = >=2 sources given")
